@@ -182,6 +182,7 @@ func runC09(c *eng.Ctx) {
 	runC09Sched(c, next)
 	runC09SharedCode(c, next)
 	runC09FaultedConstruction(c, next)
+	runC09Raw(c, next)
 }
 
 func runC09Stress(c *eng.Ctx, next func() (int, bool)) {
